@@ -88,6 +88,7 @@ func checkC05(w *World, r *Report) {
 	checkLenMinus(w, r)
 	checkNarrowBounds(w, r)
 	checkLookaround(w, r)
+	checkScannerProgress(w, r)
 	checkOffsetProvenance(w, r, reach)
 
 	// R05.7
